@@ -304,6 +304,45 @@ mutant('C20', 'numeric-levels-refused', 'frappy/logging.py',
        "        if level in LEVEL_NAMES:\n            return level", "        if False:\n            return level")
 mutant('C20', 'log-label-is-level-number', 'frappy/logging.py',
        "                    conn, modname, LEVEL_NAMES[record.levelno],", "                    conn, modname, str(record.levelno),")
+# ---------------------------------------------------------------- C14
+mutant('C14', 'cleanup-can-be-interrupted', 'frappy/lib/statemachine.py',
+       "                    if self.next_task and not self.cleanup_reason:",
+       "                    if self.next_task:")
+mutant('C14', 'cleanup-not-cleared', 'frappy/lib/statemachine.py',
+       "        with self._lock:\n            cleanup, self.cleanup = self.cleanup, None\n        ret = None",
+       "        cleanup = self.cleanup\n        ret = None")
+mutant('C14', 'init-not-reset', 'frappy/lib/statemachine.py',
+       "                            ret = self.statefunc(self)\n                            self.init = False",
+       "                            ret = self.statefunc(self)")
+mutant('C14', 'init-not-set-on-transition', 'frappy/lib/statemachine.py',
+       "        self.init = True\n        self.statefunc = statefunc", "        self.statefunc = statefunc")
+mutant('C14', 'no-loop-limit', 'frappy/lib/statemachine.py',
+       "                for _ in range(self.maxloops):", "                for _ in range(10 ** 9):")
+mutant('C14', 'attributes-not-applied', 'frappy/lib/statemachine.py',
+       "                    self._new_state(action.newstate)\n                    self._update_attributes(action.kwds)",
+       "                    self._new_state(action.newstate)")
+mutant('C14', 'stop-ignored-when-cleanup-ran', 'frappy/lib/statemachine.py',
+       "                self.cleanup_reason = None\n                if isinstance(action, Start):",
+       "                if isinstance(action, Start):")
+mutant('C14', 'exception-escapes', 'frappy/lib/statemachine.py',
+       "                        except Exception as e:\n                            ret = self._cleanup(e)",
+       "                        except KeyError as e:\n                            ret = self._cleanup(e)")
+mutant('C14', 'second-start-dropped', 'frappy/lib/statemachine.py',
+       "        with self._lock:\n            self.next_task = Start(statefunc, kwds)",
+       "        with self._lock:\n            self.next_task = self.next_task or Start(statefunc, kwds)")
+mutant('C14', 'cleanup-kept-on-restart', 'frappy/lib/statemachine.py',
+       "        kwds.setdefault('cleanup', None)  # cleanup must be given on each restart", "        pass")
+mutant('C14', 'finish-keeps-state', 'frappy/lib/statemachine.py',
+       "                    self.log.debug('finish in state %r', self.statefunc.__name__)\n                self._new_state(None)",
+       "                    self.log.debug('finish in state %r', self.statefunc.__name__)\n                if self.next_task:\n                    self._new_state(None)")
+mutant('C14', 'module-status-idle-on-start', 'frappy/states.py',
+       "            sm.status = self.get_status(statefunc, BUSY)\n            if sm.statefunc:",
+       "            sm.status = self.get_status(statefunc, IDLE)\n            if sm.statefunc:")
+mutant('C14', 'module-stopped-status-lost', 'frappy/states.py',
+       "            sm.idle_status = stopped_status\n            sm.stop()",
+       "            sm.stop()")
+mutant('C14', 'module-error-status-idle', 'frappy/states.py',
+       "        self.final_status(ERROR, repr(sm.cleanup_reason))", "        self.final_status(BUSY, repr(sm.cleanup_reason))")
 
 
 def run_mutant(prop, name, file, old, new, runs, extra):
